@@ -52,9 +52,13 @@ type scen struct {
 	DiskLowFirst [2]int `json:"disk_low_first,omitempty"`
 	SlowAssetMs  int    `json:"slow_asset_ms,omitempty"`
 
+	// LateFinisher: the finisher stage is started (its workers subscribe) while a Resume() is collecting the
+	// acknowledgements of the other stages - or once the controllers are done, should that moment never come
+	LateFinisher bool `json:"late_finisher,omitempty"`
+
 	Anchors bool     `json:"anchors,omitempty"` // the page has anchors and --max-hops is 1: outlinks flow to the finisher
 	Scripts []string `json:"scripts"`           // one per controller, over {P,R}
-	Stop    bool     `json:"stop"`    // a shutdown thread runs the stop sequence once the controllers are done
+	Stop    bool     `json:"stop"`              // a shutdown thread runs the stop sequence once the controllers are done
 	Seeds   int      `json:"seeds"`
 	Workers int      `json:"workers"`
 	P       int      `json:"p"`
@@ -69,6 +73,9 @@ func (s *scen) name() string {
 			return fmt.Sprintf("watchers disk-full-from=%ds stop-at=%ds operator-at=%ds w%d", s.DiskFullFrom, s.StopAt, s.Operator, s.Workers)
 		}
 		return fmt.Sprintf("watchers stop-at=%ds operator-at=%ds w%d", s.StopAt, s.Operator, s.Workers)
+	}
+	if s.LateFinisher {
+		return fmt.Sprintf("scripts=%s stop=%v seeds=%d w%d finisher-starts-during-resume", strings.Join(s.Scripts, "|"), s.Stop, s.Seeds, s.Workers)
 	}
 	if s.Anchors {
 		return fmt.Sprintf("scripts=%s stop=%v seeds=%d w%d anchors", strings.Join(s.Scripts, "|"), s.Stop, s.Seeds, s.Workers)
@@ -140,10 +147,29 @@ func scenario(s *scen) *vsched.Scenario {
 		x.Data = o
 	}
 	sc.Body = func() {
+		if s.LateFinisher {
+			w.FinisherGate = func() bool {
+				o.mu.Lock()
+				done := o.ctlDone >= len(s.Scripts)
+				o.mu.Unlock()
+				if done {
+					return true
+				}
+				for _, p := range vsched.Cur().Parked() {
+					if strings.Contains(p, "WaitGroup.Wait") && strings.Contains(p, "controler/pause/pause.go") {
+						return true // a Resume() has listed the subscribers and waits for their acknowledgements
+					}
+				}
+				return false
+			}
+		}
 		w.Start()
 		// workers subscribe at start-up; Zeno's controllers cannot act before that
 		// (first watchdog tick after 1-5 s): Subscribe concurrent with Pause is not in the alphabet
 		need := 4 * s.Workers
+		if s.LateFinisher {
+			need = 3 * s.Workers
+		}
 		vsched.Block("h:wait until every stage worker has subscribed", nil, func() bool { return pause.VerifSubscribers() >= need })
 		if s.Watchers {
 			watcherBody(s, w, o)
@@ -173,6 +199,9 @@ func scenario(s *scen) *vsched.Scenario {
 					c.Ret = x.StepIndex()
 					o.mu.Unlock()
 				}
+				o.mu.Lock()
+				o.ctlDone++
+				o.mu.Unlock()
 				ctlWG <- struct{}{}
 			}()
 		}
@@ -449,6 +478,11 @@ func scenarios(tier string) []scen {
 		out = append(out, scen{Scripts: []string{a}, Seeds: 1, Workers: 1, P: P, Anchors: true})
 	}
 	out = append(out, scen{Scripts: []string{"P"}, Stop: true, Seeds: 1, Workers: 1, P: P, Anchors: true})
+	// the last stage starts while a Resume() is in flight (the window in which a new subscriber is neither listed
+	// nor signalled): it must come up working
+	for _, a := range []string{"PR", "PRPR"} {
+		out = append(out, scen{Scripts: []string{a}, Seeds: 1, Workers: 1, P: P + 1, LateFinisher: true})
+	}
 	// the real watchdogs and the operator as independent controllers, then the real stop order
 	for _, stopAt := range []int{4, 12, 23} {
 		for _, op := range []int{0, 6, 11} {
